@@ -64,7 +64,13 @@ def _np():
     return numpy
 
 
+def _term_mut(a):
+    a.append('T')
+    return a
+
+
 ACCS = {
+    'append_mt': (_acc_append, lambda a, x: a + [x], lambda: [], True),      # its terminator mutates the accumulator in place
     # a seed given by value that is a mutable buffer (bytearray): every key starts from a copy of it
     'bytearr': (lambda a, x: a + bytearray([x % 251]), lambda a, x: a + bytearray([x % 251]), lambda: bytearray(b'ab'), False),
     # a numpy vector as running value: comparing it with anything yields an array, not a bool
@@ -87,6 +93,7 @@ ACCS = {
     'nested': (_acc_nested, lambda a, x: [a[0] + [x], a[1] + 1], lambda: [[], 0], True),
 }
 TERMS = {
+    'append_mt': lambda a: a + ['T'],
     'bytearr': lambda a: bytes(a) + b'T',
     'npvec': lambda a: a * 2,
     'big_isum': lambda a: a - 1, 'enum': lambda a: a.name,
@@ -170,9 +177,11 @@ def make_scan(case, term_log):
     if case['term']:
         tf = TERMS[case['acc']]
 
+        tf_real = {'append_mt': _term_mut}.get(case['acc'], tf)      # the real terminator may mutate; TERMS holds the pure definition
+
         def term(a):
             term_log.append(drive.snapshot(a))
-            return tf(a)
+            return tf_real(a)
     return rs.ops.scan(real, seed, reduce=case['reduce'], terminator=term), seed_obj
 
 
@@ -393,7 +402,7 @@ def check_reentrant(case):
 
 DERIVED = [['count', False], ['count', True], ['sum', False], ['sum', True], ['mean', False], ['mean', True], ['min', False], ['min', True],
            ['max', False], ['max', True], ['variance', False], ['variance', True], ['stddev', True], ['fvariance', False], ['fstddev', True],
-           ['to_list'], ['to_array'], ['to_array', 'd'], ['to_array', 'u'], ['to_array', 'i'], ['batch', 1], ['batch', 2], ['batch', 3], ['duc', 0], ['duc', 2], ['progress', 1], ['progress', 2],
+           ['to_list'], ['to_list_ll'], ['to_array'], ['to_array', 'd'], ['to_array', 'u'], ['to_array', 'i'], ['batch', 1], ['batch', 2], ['batch', 3], ['duc', 0], ['duc', 2], ['progress', 1], ['progress', 2],
            ['progress', 3], ['dist', False], ['dist', True]]
 
 
